@@ -500,10 +500,11 @@ fn FMT_NAME(f: Fmt) -> &'static str {
 /// Lazy records re-written through the three entry points (see `gsam::lazyrw`).
 fn lazy_rewrite_body(ch: &Chooser, cfg: &LazyRw) -> Outcome {
     use gsam::lazyrw::{self, Source};
-    let source = *ch.pick_free("source", &[Source::Own, Source::BinZero, Source::BinWrong]);
+    let source = *ch.pick_free("source", &[Source::Own, Source::BinZero, Source::BinWrong, Source::AuxOrder]);
     let (n_dst, dst) = ch.pick_free("destination", &cfg.dsts);
-    let i = ch.free("record", cfg.recs.len());
-    let (label, want) = &cfg.recs[i];
+    let recs = if source == Source::AuxOrder { &cfg.order_recs } else { &cfg.recs };
+    let i = ch.free("record", recs.len());
+    let (label, want) = &recs[i];
     let shape = shape_of(want);
     let describe = || {
         format!(
@@ -517,8 +518,10 @@ fn lazy_rewrite_body(ch: &Chooser, cfg: &LazyRw) -> Outcome {
         Source::Own => 0,
         Source::BinZero => 1,
         Source::BinWrong => 2,
+        Source::AuxOrder => 3,
     }];
-    match lazyrw::check_one(&lazies[i], want, dst, *n_dst) {
+    // hand-ordered aux fields: compared as a tag -> value map (resolving CG may reorder fields)
+    match lazyrw::check_one_with(&lazies[i], want, dst, *n_dst, source == Source::AuxOrder) {
         Ok(n) => {
             ch.obs_hash((n, i, *n_dst));
             if n == 0 {
@@ -550,7 +553,9 @@ fn lazy_rewrite_body(ch: &Chooser, cfg: &LazyRw) -> Outcome {
 
 struct LazyRw {
     recs: Vec<(&'static str, GRec)>,
-    /// lazily read records per source variant (own, bin=0, bin stale)
+    /// the hand-built > 65535-op records whose CG field is first / in the middle / last
+    order_recs: Vec<(&'static str, GRec)>,
+    /// lazily read records per source variant (own, bin=0, bin stale, aux order)
     lazies: Vec<Vec<noodles_bam::Record>>,
     dsts: Vec<(usize, sam::Header)>,
 }
@@ -560,15 +565,17 @@ fn lazy_rw_setup() -> LazyRw {
     let recs = lazyrw::source_records(true);
     let (_, h5) = lazyrw::header_with_refs(5);
     let models: Vec<GRec> = recs.iter().map(|x| x.1.clone()).collect();
-    let lazies = [Source::Own, Source::BinZero, Source::BinWrong]
+    let mut lazies: Vec<Vec<noodles_bam::Record>> = [Source::Own, Source::BinZero, Source::BinWrong]
         .into_iter()
         .map(|s| {
             let bytes = lazyrw::source_file(&h5, &models, s).unwrap_or_else(|e| vmc::machinery(format!("lazy-rewrite source file: {e}")));
             lazyrw::read_lazy(&bytes).unwrap_or_else(|e| vmc::machinery(format!("lazy-rewrite read_record: {e}")))
         })
         .collect();
+    let (obytes, order_recs) = lazyrw::aux_order_file(&h5).unwrap_or_else(|e| vmc::machinery(format!("lazy-rewrite aux-order file: {e}")));
+    lazies.push(lazyrw::read_lazy(&obytes).unwrap_or_else(|e| vmc::machinery(format!("lazy-rewrite aux-order read_record: {e}"))));
     let dsts = [5usize, 3, 0].into_iter().map(|n| (n, lazyrw::header_with_refs(n).1)).collect();
-    LazyRw { recs, lazies, dsts }
+    LazyRw { recs, order_recs, lazies, dsts }
 }
 
 /// Lazy sequence views: `Sequence::{len, is_empty, get, iter (both ends, size_hint), split_at_checked}` and
@@ -687,7 +694,7 @@ fn main() {
         );
         ctx.rule(
             "lazy rewrite: 10 records (incl. one with 65536 ops) read lazily from a 5-reference raw BAM as written by noodles / with bin=0 / \
-             with a stale bin x destination header with 5, 3, 0 references: write_record(lazy), write_alignment_record(lazy) and \
+             with a stale bin, + 4 hand-built 65536-op records with CG first / in the middle / last / after a B:S array (aux compared as a map) x destination header with 5, 3, 0 references: write_record(lazy), write_alignment_record(lazy) and \
              write_alignment_record(RecordBuf::try_from(lazy)) agree (Ok/Err, bytes) and decode to the record | lazy sequence views: \
              every length 0..=8 x every split point x 2 letter sets: len/get/iter (both ends)/split_at_checked and both sub-slices",
         );
